@@ -45,8 +45,10 @@ type Layer struct {
 	Assert    bool
 	Unimpl    bool
 	IsLink    bool
-	HTTP      int // 0 = none
-	GRPC      int // 0 = none
+	HTTP      int
+	HasHTTP   bool
+	GRPC      int
+	HasGRPC   bool
 	StackFn   string // "" = no stack; else expected first-frame function
 	Barrier   bool   // barrierErr layer (hides Node.Hidden[0])
 	Secondary bool   // withSecondaryError layer
@@ -160,7 +162,7 @@ func OwnLayers(n *gen.Node) []Layer {
 		out = []Layer{domainL(GenPkgDomain), goErrorString}
 	case "gstatus":
 		g := libL("extgrpc", "withGrpcCode")
-		g.GRPC = n.N[0]
+		g.GRPC, g.HasGRPC = n.N[0], true
 		out = []Layer{g, withStack(lib + "grpc/status.Error"), leafError}
 	case "goerr":
 		out = []Layer{goErrorString}
@@ -254,17 +256,17 @@ func OwnLayers(n *gen.Node) []Layer {
 		out = []Layer{assertL}
 	case "http":
 		l := libL("exthttp", "withHTTPCode")
-		l.HTTP = n.N[0]
+		l.HTTP, l.HasHTTP = n.N[0], true
 		out = []Layer{l}
 	case "grpc":
 		l := libL("extgrpc", "withGrpcCode")
-		l.GRPC = n.N[0]
+		l.GRPC, l.HasGRPC = n.N[0], true
 		out = []Layer{l}
 	case "newfw":
 		out = []Layer{st(), secondaryL, libL("errutil", "withNewMessage")}
 	case "gstatuswrap":
 		g := libL("extgrpc", "withGrpcCode")
-		g.GRPC = n.N[0]
+		g.GRPC, g.HasGRPC = n.N[0], true
 		out = []Layer{g, st(), withPrefix}
 	case "goerrorf", "goerrorfsfx":
 		out = []Layer{L("*fmt.wrapError", "fmt")}
@@ -282,6 +284,8 @@ func OwnLayers(n *gen.Node) []Layer {
 		out = []Layer{L("*os.SyscallError", "os")}
 	case "operr":
 		out = []Layer{L("*net.OpError", "net")}
+	case "aswrap":
+		out = []Layer{harnessL("*gen.AsWrap")}
 	case "nofmtwrap":
 		out = []Layer{harnessL("*gen.NoFmtWrap")}
 	case "causewrap":
@@ -398,7 +402,7 @@ func Text(n *gen.Node) string {
 		return "safe " + S[0]
 	case "wrap", "withmsg", "gstatuswrap":
 		return pfx(S[0])
-	case "pkgmsg", "nofmtwrap", "fmtwrap", "goerrorf", "pkgwrap", "causewrap", "oldfmtwrap", "fmtrwrap",
+	case "pkgmsg", "nofmtwrap", "aswrap", "fmtwrap", "goerrorf", "pkgwrap", "causewrap", "oldfmtwrap", "fmtrwrap",
 		"lowwrap", "syscallerr":
 		return S[0] + ": " + k(0)
 	case "wrapf", "withmsgf":
@@ -609,10 +613,10 @@ func Annotations(n *gen.Node) Annot {
 		if i == 0 {
 			o.IsAssert, o.IsLink, o.IsUnimpl = l.Assert, l.IsLink, l.Unimpl
 		}
-		if l.HTTP != 0 && !gotHTTP {
+		if l.HasHTTP && !gotHTTP {
 			o.HTTP, gotHTTP = l.HTTP, true
 		}
-		if l.GRPC != 0 && !gotGRPC {
+		if l.HasGRPC && !gotGRPC {
 			o.GRPC, gotGRPC = l.GRPC, true
 		}
 	}
